@@ -168,6 +168,10 @@ pub fn plan(prop: &str, tier: &str, polars: bool, scale: f64) -> Plan {
                     name: "directed/generators",
                     programs: Arc::new(directed::generators(if thorough { 2 } else { 1 })),
                 },
+                Source::Directed {
+                    name: "directed/rolling-default-paths",
+                    programs: Arc::new(directed::rolling(if thorough { 9 } else { 6 })),
+                },
                 Source::Seeded {
                     name: "seeded/sinks",
                     stream_id: 2,
